@@ -304,28 +304,35 @@ theorem seekSpec_set (h : H) (s : Store) (f : Int) :
       else (seekMoveH h 0 f, defaultSeek h s f, { ret := f, err := 0 }) := by
   simp [seekSpec, seekWm, seekBase, seekIsTell]
 
-theorem stepTruncate_neg (h : H) (s : Store) (f : Int) (hm : h.mode ≠ .r) (hf : f < 0) (hf1 : f ≠ -1) :
+/-- since the TRUNC-VIO repair: on a route without `ftruncate` (SF_VIRTUAL_IO) the command is refused before the seek
+    and before `sf.frames` is touched: SF_TRUE, no error, nothing changes but the cleared error field -/
+theorem stepTruncate_vio (h : H) (s : Store) (f : Int) (hm : h.mode ≠ .r) (hc : h.canTruncate = false) :
+    stepTruncate h s f = ({ h with error := 0 }, s, { ret := 1 }) := by
+  simp [stepTruncate, hm, hc]
+
+theorem stepTruncate_neg (h : H) (s : Store) (f : Int) (hm : h.mode ≠ .r) (hc : h.canTruncate = true) (hf : f < 0)
+    (hf1 : f ≠ -1) :
     stepTruncate h s f = ({ h with error := E_BAD_SEEK }, s, { ret := 1, err := E_BAD_SEEK }) := by
   unfold stepTruncate
   simp only [stepSeek_eq_spec, seekSpec_set]
-  simp [hm, hf, seekFail]
+  simp [hm, hc, hf, seekFail]
   omega
 
-/-- the C compares `sf_seek`'s result with the requested position: −1 "succeeds" -/
+/-- the C compares `sf_seek`'s result with the requested position: −1 "succeeds" (descriptor routes) -/
 theorem stepTruncate_minus1 (h : H) (s : Store) (hm : h.mode ≠ .r) :
     stepTruncate h s (-1) =
       if h.canTruncate then ({ h with error := E_BAD_SEEK, frames := -1 }, { s with bytes := truncBytes s.bytes s.pos }, { ret := 0, err := 0 })
-      else ({ h with error := 2, frames := -1 }, s, { ret := -1, err := 2 }) := by
+      else ({ h with error := 0 }, s, { ret := 1 }) := by
   unfold stepTruncate
   simp only [stepSeek_eq_spec, seekSpec_set]
-  simp [hm, seekFail]
+  cases hc : h.canTruncate <;> simp [hm, hc, seekFail]
 
 theorem stepTruncate_ok (h : H) (s : Store) (f : Int) (hm : h.mode ≠ .r) (hf : 0 ≤ f) :
     stepTruncate h s f =
       if h.canTruncate then
         ({ seekMoveH h 0 f with frames := f }, { bytes := truncBytes s.bytes (defaultSeek h s f).pos, pos := (defaultSeek h s f).pos },
          { ret := 0, err := 0 })
-      else ({ seekMoveH h 0 f with frames := f, error := 2 }, defaultSeek h s f, { ret := -1, err := 2 }) := by
+      else ({ h with error := 0 }, s, { ret := 1 }) := by
   unfold stepTruncate
   simp only [stepSeek_eq_spec, seekSpec_set]
   have : ¬ f < 0 := by omega
@@ -333,5 +340,17 @@ theorem stepTruncate_ok (h : H) (s : Store) (f : Int) (hm : h.mode ≠ .r) (hf :
   · exact absurd hm' hm
   · cases hc : h.canTruncate <;> simp [hm', hc, this, seekMoveH, defaultSeek, Store.seekSet, H.bw, modeBits]
   · cases hc : h.canTruncate <;> simp [hm', hc, this, seekMoveH, defaultSeek, Store.seekSet, H.bw, modeBits]
+
+/-- SFC_FILE_TRUNCATE as it was BEFORE the TRUNC-VIO repair (kept only so that the `_old_rule` theorems can state what
+    the library used to do): no test for virtual I/O in front of the seek, `sf.frames` stored before `psf_ftruncate`
+    failed with EBADF -> SFE_SYSTEM on a handle without descriptor -/
+def stepTruncateOld (h : H) (s : Store) (frames : Int) : H × Store × Out :=
+  let h := { h with error := 0 }
+  if h.mode == .r then (h, s, { ret := 1 }) else
+  let (h, s, o) := stepSeek h s frames 0
+  if o.ret != frames then (h, s, { ret := 1, err := h.error }) else
+  let h := { h with frames := frames }
+  if h.canTruncate then (h, { s with bytes := truncBytes s.bytes s.pos }, { ret := 0, err := 0 })
+  else ({ h with error := 2 }, s, { ret := -1, err := 2 })
 
 end Sf
